@@ -1285,7 +1285,8 @@ func (d *Driver) quiesceAtNewHeight() (int64, bool) {
 // for the parts. Only then the proposer sends the victim a second, validly signed proposal for the
 // same height and round naming another block Y (and, optionally, Y's parts). A node in the commit
 // step must not care; catch-up gossip then brings X's parts and the victim commits X.
-// N selects the victim, A%2 == 1 also sends Y's parts, A/2%2 == 1 sends the proposal twice.
+// N selects the victim, A%2 == 1 also sends Y's parts, A/2%2 == 1 sends the proposal twice,
+// A/4%2 == 1 is the wrong-part-count variant described in the code.
 func (d *Driver) LateProposal(op Op) bool {
 	net := d.Net
 	bs := d.byz()
@@ -1353,6 +1354,14 @@ func (d *Driver) LateProposal(op Op) bool {
 		}
 		return false
 	})
+	wrongTotal := (op.A/4)%2 == 1
+	if wrongTotal {
+		// variant: the victim does get a proposal for X, signed by the proposer, whose parts header
+		// names X's Merkle root but one part too many; none of X's parts fits that header
+		hdr := partsX.Header()
+		hdr.Total++
+		net.Inject(V.ID, pid, &pbft.ProposalMessage{Proposal: SignProposal(pid, H, 0, hdr, -1, types.BlockID{})})
+	}
 	if V.RS().Step == pbft.RoundStepPropose {
 		d.fireNewest(V) // propose timeout: prevote nil
 	}
@@ -1383,7 +1392,7 @@ func (d *Driver) LateProposal(op Op) bool {
 		return fl.To == V.ID && isVoteOf(fl, types.VoteTypePrecommit) && voteRound(fl) == 0
 	})
 	rs := V.RS()
-	if rs.Height != H || rs.Step != pbft.RoundStepCommit || rs.Proposal != nil || rs.ProposalBlock != nil {
+	if rs.Height != H || rs.Step != pbft.RoundStepCommit || (rs.Proposal != nil) != wrongTotal || rs.ProposalBlock != nil {
 		return false // script derailed (the victim is not waiting for X's parts)
 	}
 	// ---- the second proposal
